@@ -3571,7 +3571,25 @@ func (p *Posix) DeleteObjects(ctx context.Context, input *s3.DeleteObjectsInput)
 	}, nil
 }
 
-func (p *Posix) GetObject(_ context.Context, input *s3.GetObjectInput) (*s3.GetObjectOutput, error) {
+// errObjectReplaced is returned by getObject and headObject when the file
+// behind the key was replaced while its size, attributes and data were
+// collected by path, so the pieces could stem from different writes
+var errObjectReplaced = errors.New("object replaced while it was read")
+
+// maxReadRetries limits how often a read starts over because the object
+// was replaced under it
+const maxReadRetries = 20
+
+func (p *Posix) GetObject(ctx context.Context, input *s3.GetObjectInput) (*s3.GetObjectOutput, error) {
+	for i := 0; ; i++ {
+		out, err := p.getObject(ctx, input)
+		if !errors.Is(err, errObjectReplaced) || i == maxReadRetries {
+			return out, err
+		}
+	}
+}
+
+func (p *Posix) getObject(_ context.Context, input *s3.GetObjectInput) (*s3.GetObjectOutput, error) {
 	if input.Bucket == nil {
 		return nil, s3err.GetAPIError(s3err.ErrInvalidBucketName)
 	}
@@ -3762,6 +3780,13 @@ func (p *Posix) GetObject(_ context.Context, input *s3.GetObjectInput) (*s3.GetO
 	}
 
 	verifhook.Point("get.afterOpen")
+	// size and attributes above were read by path: they describe the
+	// opened file only if the key still named the same file
+	if ofi, err := f.Stat(); err != nil || !os.SameFile(fi, ofi) {
+		f.Close()
+		return nil, errObjectReplaced
+	}
+
 	var checksums s3response.Checksum
 	var cType types.ChecksumType
 	// Skip the checksums retreival if object isn't requested fully
@@ -3809,6 +3834,15 @@ func (p *Posix) GetObject(_ context.Context, input *s3.GetObjectInput) (*s3.GetO
 }
 
 func (p *Posix) HeadObject(ctx context.Context, input *s3.HeadObjectInput) (*s3.HeadObjectOutput, error) {
+	for i := 0; ; i++ {
+		out, err := p.headObject(ctx, input)
+		if !errors.Is(err, errObjectReplaced) || i == maxReadRetries {
+			return out, err
+		}
+	}
+}
+
+func (p *Posix) headObject(ctx context.Context, input *s3.HeadObjectInput) (*s3.HeadObjectOutput, error) {
 	if input.Bucket == nil {
 		return nil, s3err.GetAPIError(s3err.ErrInvalidBucketName)
 	}
@@ -3991,6 +4025,13 @@ func (p *Posix) HeadObject(ctx context.Context, input *s3.HeadObjectInput) (*s3.
 		if checksums.Type != "" {
 			cType = checksums.Type
 		}
+	}
+
+	// size and attributes were read by path one after the other: they
+	// describe one write only if the key still names the same file
+	nfi, err := os.Stat(objPath)
+	if err != nil || !os.SameFile(fi, nfi) {
+		return nil, errObjectReplaced
 	}
 
 	return &s3.HeadObjectOutput{
